@@ -72,7 +72,7 @@ fn for_tuples(words: &[u64], d: usize, mut f: impl FnMut(&[u64])) {
 fn state_lattice_for(spec: &Spec) -> Vec<V> {
     match spec {
         Spec::Rv { dim, .. } => {
-            let c = [0.0, 1.0, -1.0, 0.5, 3.0, -7.0, 1e300, -1e300, 1e-8, 4.0, 5.0];
+            let c = [0.0, 1.0, -1.0, 0.5, 3.0, -7.0, 1e300, -1e300, 1e-8, 4.0, 5.0, f64::INFINITY, f64::NEG_INFINITY, f64::MAX, -0.0, 5e-324];
             let mut out = Vec::new();
             for a in c {
                 for b in c {
@@ -130,7 +130,7 @@ fn state_lattice_for(spec: &Spec) -> Vec<V> {
             let subs: Vec<Vec<V>> = parts
                 .iter()
                 .map(|p| match p {
-                    Spec::Rv { dim, .. } => [0.5, -7.0, 1e300, 4.0].iter().map(|a| V::Rv(vec![*a; *dim])).collect(),
+                    Spec::Rv { dim, .. } => [0.5, -7.0, 1e300, 4.0, f64::NEG_INFINITY].iter().map(|a| V::Rv(vec![*a; *dim])).collect(),
                     Spec::So2 { .. } => [0.0, 1.5 * PI, -3.0, 7.0, PI].iter().map(|a| V::So2(*a)).collect(),
                     Spec::So3 { .. } => vec![V::So3([0.0, 0.0, 0.0, 1.0]), V::So3([0.0, 0.0, 0.0, 0.0]), V::So3(crate::catalog::quat_axis_angle([1.0, 0.0, 0.0], 170.0)), V::So3([0.0, 0.0, 3.0, 0.0])],
                     _ => unreachable!(),
@@ -190,7 +190,7 @@ fn canonical_after_enforce(spec: &Spec, v: &V) -> Result<(), String> {
 }
 
 fn nearly_same(a: &V, b: &V) -> bool {
-    let close = |x: f64, y: f64| (x - y).abs() <= 4.0 * f64::EPSILON * x.abs().max(y.abs()).max(1.0);
+    let close = |x: f64, y: f64| x == y || (x - y).abs() <= 4.0 * f64::EPSILON * x.abs().max(y.abs()).max(1.0);
     match (a, b) {
         (V::Rv(x), V::Rv(y)) => x.len() == y.len() && x.iter().zip(y).all(|(p, q)| close(*p, *q)),
         // -pi and pi are the same configuration; which representative is stored at the seam is
@@ -251,7 +251,9 @@ fn c11_enforce<K: Kit>(spec: &Spec, rep: &mut Report) {
                 if !refspace::in_bounds(spec, &ev, 1e-9, 2e-7) {
                     viol(rep, "C11", &format!("{kit}|enforced-state-outside-bounds-model|{cls}"), "the enforced state violates the independent bounds model".into(), det(json!({"enforced": ev.json()})));
                 }
-                if !(d12 <= 1e-9) || !ev.all_finite() {
+                // (an infinite coordinate on an unbounded side legitimately stays infinite: idempotence is then bit equality)
+                let same_bits = ev.bits() == K::to_v(&e2).bits();
+                if !(d12 <= 1e-9 || same_bits) || (!ev.all_finite() && v.all_finite()) {
                     viol(rep, "C11", &format!("{kit}|enforce-not-idempotent|{cls}"), format!("enforcing twice moves the state by {d12}"), det(json!({"enforced": ev.json(), "twice": K::to_v(&e2).json()})));
                 }
                 if let Err(why) = canonical_after_enforce(spec, &ev) {
